@@ -159,6 +159,40 @@ def h_chunks(ex, n_docs, kind):
     return {"chunks": [[a, b] for a, b in chunks]}
 
 
+def h_coo_sizes(ex, n_wide, kind):
+    """_set_coo_sizes for every corpus size, window radius / offset, coo_initial_memory and n_threads: every accumulator
+    gets at least two slots (log2 of the capacity and the merge stack are defined) -- the buffer-sizing premise of
+    'results do not depend on coo_initial_memory / n_threads'"""
+    from symx.containers import SymLenList
+    if kind == "multiset":
+        cls = loader.load("vectorizers.multi_token_cooccurence_vectorizer").MultiSetCooccurrenceVectorizer
+    else:
+        cls = loader.load("vectorizers.base_cooccurrence_vectorizer").BaseCooccurrenceVectorizer
+    est = cls.__new__(cls)
+    radii = [fresh_int("radius%d" % i, 1, 100) for i in range(n_wide)]
+    offs = [fresh_int("offset%d" % i, 0, 100) for i in range(n_wide)]
+    for r_, o_ in zip(radii, offs):
+        assume(o_ <= r_)
+    assume(sum((r_ - o_ for r_, o_ in zip(radii, offs)), 0) >= 1)       # some window is non-empty
+    est.window_radii = list(radii)
+    est._window_radii = np.array(radii, dtype=np.int64)
+    est._n_wide = n_wide
+    est._full_kernel_args = [(None, False, o_) for o_ in offs]
+    est.coo_initial_bytes = fresh_int("coo_initial_bytes", 1, 2 ** 40)
+    est.n_threads = fresh_int("n_threads", 1, 256)
+    size = fresh_int("corpus_tokens", 1, 10 ** 9)
+    register("radii", radii); register("offsets", offs); register("coo_initial_bytes", est.coo_initial_bytes)
+    register("n_threads", est.n_threads); register("corpus_tokens", size)
+    doc = SymLenList([0])
+    doc._symx_len = size
+    data = [[doc]] if kind == "multiset" else [doc]
+    call(est._set_coo_sizes, data)
+    cs_ = est._coo_sizes
+    check("one capacity per window", tuple(cs_.shape) == (n_wide,))
+    check("every accumulator capacity is at least 2", sand(*[cs_[i] >= 2 for i in range(n_wide)]))
+    return None
+
+
 def cases(tier):
     cs = []
     if tier == "quick":
@@ -177,6 +211,11 @@ def cases(tier):
                        functions=["base_cooccurrence_vectorizer.BaseCooccurrenceVectorizer._generate_chunk_boundaries",
                                   "multi_token_cooccurence_vectorizer.MultiSetCooccurrenceVectorizer._generate_chunk_boundaries"], max_witness=10,
                        bounds={"documents": nd, "document sizes": "symbolic 0 .. 10^9", "n_threads": "symbolic 1 .. 64"}))
+    for nw, kind in ([(1, "token"), (2, "token")] if tier == "quick" else [(1, "token"), (2, "token"), (3, "token"), (1, "multiset"), (2, "multiset")]):
+        cs.append(Case("coo_sizes[windows=%d,%s]" % (nw, kind), h_coo_sizes, dict(n_wide=nw, kind=kind), replay="C04:replay_coo_sizes",
+                       functions=["base_cooccurrence_vectorizer.BaseCooccurrenceVectorizer._set_coo_sizes"],
+                       bounds={"windows": nw, "radii / offsets": "symbolic 0..100", "coo_initial_bytes": "symbolic 1 .. 2^40", "n_threads": "symbolic 1..256",
+                               "corpus": "symbolic 1 .. 10^9 tokens"}))
     # inductive step over run-stack states: every occupancy pattern of a stack of depth <= 3 (4 thorough)
     pats = []
     for depth in ((1, 2, 3) if tier == "quick" else (1, 2, 3, 4)):
